@@ -30,6 +30,12 @@ var (
 	// re-election of an expired RFC 9520 failure probe. The limit belongs to
 	// one request cohort and must never create shared failure-cache state.
 	ErrFailureProbeLimit = errors.New("failure probe retry limit exceeded")
+
+	// ErrLocalLoadShed identifies work refused by this resolver's own
+	// admission control (in-flight ceilings). It describes local load at one
+	// instant, not the question or its authorities, and must never create
+	// shared failure-cache state.
+	ErrLocalLoadShed = errors.New("local load shed")
 )
 
 // ResolutionAttemptLimitError records the tuple rejected by the RFC 9520
@@ -412,6 +418,7 @@ func IsRequestLocalResolutionError(err error) bool {
 	return errors.Is(err, ErrRecursionWorkLimit) ||
 		errors.Is(err, ErrResolutionAttemptLimit) ||
 		errors.Is(err, ErrFailureProbeLimit) ||
+		errors.Is(err, ErrLocalLoadShed) ||
 		errors.Is(err, ErrMaxRecursion) ||
 		errors.Is(err, context.Canceled) ||
 		errors.Is(err, context.DeadlineExceeded)
